@@ -494,7 +494,10 @@ func Run(cfg Config, bodies []func(t *Task)) *Result {
 			}
 		} else {
 			idle++
-			if onlyBlocked && idle > 3*n {
+			// A deadlock is only declared after every unfinished task has been silent for
+			// five seconds of wall clock: a starved machine can stall a runnable task for
+			// hundreds of milliseconds.
+			if onlyBlocked && idle > 50 {
 				res.Deadlock = true
 				break
 			}
